@@ -5,26 +5,36 @@
 (*                                                                         *)
 (*   main loop   Recv -> (schema name? count an error) -> SwitchGraph      *)
 (*               (close the current element channel, look the graph up,    *)
-(*               open a channel, spawn a consumer goroutine running        *)
-(*               graph.BulkAdd) -> Validate -> Forward; EOF: close, wait.  *)
-(*   consumers   one goroutine per opened channel; kvgraph.BulkAdd reads    *)
-(*               its channel inside ONE bulk write, which is flushed when  *)
-(*               the channel is closed (Commit); the main loop only waits  *)
-(*               for the consumers at EOF.                                 *)
+(*               make a new channel, spawn a consumer goroutine running     *)
+(*               graph.BulkAdd(elementStream)) -> Validate -> Forward;      *)
+(*               EOF: close, wait for all consumers.                       *)
+(*   consumers   one goroutine per switch.  kvgraph.BulkAdd drains the     *)
+(*               channel it was given inside ONE bulk write that is        *)
+(*               flushed when the channel is closed (Commit) and writes    *)
+(*               every element into ITS graph, whatever the element names. *)
 (*   filter      accounts.BulkWriteFilter drops the elements the policy    *)
 (*               denies before the loop sees them (Visible).               *)
 (*                                                                         *)
-(* "close of a closed channel", "send on a closed channel" are explicit    *)
-(* error states (fail); an element sent into the initial channel, which    *)
-(* has no consumer, is counted in `orphans`.                               *)
-(*                                                                         *)
-(* Variant = "pinned": the loop as in the pinned tree.                     *)
-(* Variant = "waits":  the repaired loop - a switch waits for the consumer *)
-(*    of the channel it closed; a graph that cannot be opened leaves NO    *)
-(*    channel (every element addressed to it is counted as an error).      *)
-(* A violated Refines on the pinned variant is a PREDICTION about the      *)
-(* code; the verdict comes from replaying the witness stream on the real   *)
-(* server (harness/bulk).                                                  *)
+(* Variant = "pinned" - the loop as in the pinned tree:                    *)
+(*    - the channel variable is closed at every switch even if the lookup  *)
+(*      then fails ("close of a closed channel" / "send on a closed        *)
+(*      channel" are explicit fail states);                                *)
+(*    - the first channel is made before the loop and nobody reads it      *)
+(*      (`orphans`);                                                       *)
+(*    - the goroutine closure reads the loop's channel VARIABLE when it    *)
+(*      starts (Start), not when it is spawned: a consumer that starts     *)
+(*      late drains a later graph's channel;                               *)
+(*    - the loop waits for the consumers only at EOF: two consumers of one *)
+(*      graph may commit in either order.                                  *)
+(* Variant = "waits" - the repaired loop: no channel while there is no     *)
+(*    open graph (every element addressed to a graph that cannot be opened *)
+(*    is counted as an error), the channel is handed to the goroutine as   *)
+(*    an argument, a switch waits for the consumer of the channel it       *)
+(*    closed.                                                              *)
+(* A finished pinned run that disagrees with the abstract clause is a      *)
+(* PREDICTION about the code (EmitPrediction); the verdict comes from      *)
+(* replaying the stream on the real server (harness/bulk), where the       *)
+(* schedule classes "commit order" and "late start" can be imposed.        *)
 EXTENDS BulkAbs
 
 CONSTANTS MaxLen, Alpha, Variant
@@ -34,94 +44,127 @@ VARIABLES stream,   \* the generated client stream
           phase,    \* "gen" | "run" | "wait" | "done"
           i,        \* next element of Visible to receive
           gname,    \* the loop's graphName
-          ch,       \* state of elementStream: "init" (open, nobody reads it) | "open" | "closed" | "none"
-          cons,     \* consumers: sequence of [g, q, closed, done]
+          started,  \* repaired loop: an element has been seen
+          chans,    \* every channel made so far: [q, closed]
+          cur,      \* the channel the loop's variable refers to (0 = nil)
+          cons,     \* consumers: [g, bound (channel it drains, 0 = goroutine not started yet), done]
           st,       \* the store
           ins, errs, orphans, fail,
-          ord       \* history: the order in which the consumers committed
-vars == <<stream, pol, phase, i, gname, ch, cons, st, ins, errs, orphans, fail, ord>>
+          sched     \* history: starts and commits in the order they happened
+vars == <<stream, pol, phase, i, gname, started, chans, cur, cons, st, ins, errs, orphans, fail, sched>>
 
+Pinned == Variant = "pinned"
 Alph == IF Alpha = "safe" THEN SafeAlphabet ELSE Alphabet
 W == Policies[pol]
 Visible == SelectSeq(stream, LAMBDA el : el.g \in W)
+NewChan == [q |-> <<>>, closed |-> FALSE]
 
-Init == /\ stream = <<>> /\ pol \in DOMAIN Policies /\ phase = "gen" /\ i = 1 /\ gname = "" /\ ch = "init"
-        /\ cons = <<>> /\ st = InitStore /\ ins = 0 /\ errs = 0 /\ orphans = 0 /\ fail = "" /\ ord = <<>>
+Init == /\ stream = <<>> /\ pol \in DOMAIN Policies /\ phase = "gen" /\ i = 1 /\ gname = "" /\ started = FALSE
+        /\ chans = IF Pinned THEN <<NewChan>> ELSE <<>>
+        /\ cur = IF Pinned THEN 1 ELSE 0
+        /\ cons = <<>> /\ st = InitStore /\ ins = 0 /\ errs = 0 /\ orphans = 0 /\ fail = "" /\ sched = <<>>
 
 Gen == /\ phase = "gen" /\ Len(stream) < MaxLen
        /\ \E el \in Alph : stream' = Append(stream, el)
-       /\ UNCHANGED <<pol, phase, i, gname, ch, cons, st, ins, errs, orphans, fail, ord>>
+       /\ UNCHANGED <<pol, phase, i, gname, started, chans, cur, cons, st, ins, errs, orphans, fail, sched>>
 Start == /\ phase = "gen" /\ Len(stream) > 0 /\ phase' = "run"
-         /\ UNCHANGED <<stream, pol, i, gname, ch, cons, st, ins, errs, orphans, fail, ord>>
+         /\ UNCHANGED <<stream, pol, i, gname, started, chans, cur, cons, st, ins, errs, orphans, fail, sched>>
 
 AllDone == \A k \in DOMAIN cons : cons[k].done
-CloseCur(cs) == IF ch = "open" THEN [cs EXCEPT ![Len(cs)].closed = TRUE] ELSE cs
+Closed(c) == c # 0 /\ chans[c].closed
+CloseOf(cs, c) == IF c = 0 THEN cs ELSE [cs EXCEPT ![c].closed = TRUE]
 
-\* Validate + Forward of element el on channel state c with consumers cs
+\* Validate + Forward of element el into channel c of the channel list cs
 Forward(el, c, cs) ==
-  IF el.k \notin {"v", "e"} THEN /\ UNCHANGED <<ins, errs, orphans, fail>> /\ cons' = cs
-  ELSE IF ~ValidEl(el) THEN /\ errs' = errs + 1 /\ UNCHANGED <<ins, orphans, fail>> /\ cons' = cs
-  ELSE CASE c = "open"   -> /\ ins' = ins + 1 /\ cons' = [cs EXCEPT ![Len(cs)].q = Append(@, el)] /\ UNCHANGED <<errs, orphans, fail>>
-         [] c = "init"   -> /\ ins' = ins + 1 /\ orphans' = orphans + 1 /\ cons' = cs /\ UNCHANGED <<errs, fail>>
-         [] c = "closed" -> /\ ins' = ins + 1 /\ fail' = "send on closed channel" /\ cons' = cs /\ UNCHANGED <<errs, orphans>>
-         [] c = "none"   -> /\ errs' = errs + 1 /\ cons' = cs /\ UNCHANGED <<ins, orphans, fail>>
+  IF el.k \notin {"v", "e"} THEN /\ UNCHANGED <<ins, errs, orphans, fail>> /\ chans' = cs
+  ELSE IF ~ValidEl(el) THEN /\ errs' = errs + 1 /\ UNCHANGED <<ins, orphans, fail>> /\ chans' = cs
+  ELSE IF cs[c].closed THEN /\ ins' = ins + 1 /\ fail' = "send on closed channel" /\ chans' = cs /\ UNCHANGED <<errs, orphans>>
+  ELSE /\ ins' = ins + 1 /\ chans' = [cs EXCEPT ![c].q = Append(@, el)] /\ UNCHANGED <<errs, fail>>
+       /\ orphans' = IF Pinned /\ c = 1 THEN orphans + 1 ELSE orphans     \* nobody ever reads the first channel
+
+RecvPinned(el) ==
+  IF el.g # gname
+  THEN IF Closed(cur)
+       THEN /\ fail' = "close of closed channel"
+            /\ UNCHANGED <<i, gname, started, chans, cur, cons, ins, errs, orphans>>
+       ELSE IF el.g \notin DOMAIN st
+            THEN /\ errs' = errs + 1 /\ chans' = CloseOf(chans, cur) /\ i' = i + 1
+                 /\ UNCHANGED <<gname, started, cur, cons, ins, orphans, fail>>
+            ELSE /\ gname' = el.g /\ cur' = Len(chans) + 1 /\ i' = i + 1
+                 /\ cons' = Append(cons, [g |-> el.g, bound |-> 0, done |-> FALSE])
+                 /\ Forward(el, Len(chans) + 1, Append(CloseOf(chans, cur), NewChan))
+                 /\ UNCHANGED started
+  ELSE /\ i' = i + 1 /\ Forward(el, cur, chans) /\ UNCHANGED <<gname, started, cur, cons>>
+
+RecvWaits(el) ==
+  IF ~started \/ el.g # gname
+  THEN /\ AllDone                         \* closeStream(): close, then wait for the consumer (CloseForSwitch + Commit)
+       /\ (cur # 0 => chans[cur].closed)
+       /\ started' = TRUE /\ gname' = el.g /\ i' = i + 1
+       /\ IF el.g \notin DOMAIN st
+          THEN /\ cur' = 0 /\ errs' = errs + 1 /\ UNCHANGED <<chans, cons, ins, orphans, fail>>
+          ELSE /\ cur' = Len(chans) + 1
+               /\ cons' = Append(cons, [g |-> el.g, bound |-> Len(chans) + 1, done |-> FALSE])   \* channel passed as argument
+               /\ Forward(el, Len(chans) + 1, Append(chans, NewChan))
+  ELSE IF cur = 0
+       THEN /\ errs' = errs + 1 /\ i' = i + 1 /\ UNCHANGED <<gname, started, chans, cur, cons, ins, orphans, fail>>
+       ELSE /\ i' = i + 1 /\ Forward(el, cur, chans) /\ UNCHANGED <<gname, started, cur, cons>>
 
 Recv ==
   /\ phase = "run" /\ fail = "" /\ i <= Len(Visible)
   /\ LET el == Visible[i] IN
        IF el.g \in SchemaNames
-       THEN /\ errs' = errs + 1 /\ i' = i + 1 /\ UNCHANGED <<stream, pol, phase, gname, ch, cons, st, ins, orphans, fail, ord>>
-       ELSE IF el.g # gname \/ (Variant = "waits" /\ ch = "init")
-       THEN \* SwitchGraph
-            IF ch = "closed"
-            THEN /\ fail' = "close of closed channel" /\ UNCHANGED <<stream, pol, phase, i, gname, ch, cons, st, ins, errs, orphans, ord>>
-            ELSE /\ (Variant = "waits" => AllDone)        \* the repaired loop waits for the consumer it closed
-                 /\ IF el.g \notin DOMAIN st
-                    THEN /\ errs' = errs + 1 /\ cons' = CloseCur(cons) /\ i' = i + 1
-                         /\ ch' = IF Variant = "waits" THEN "none" ELSE "closed"
-                         /\ gname' = IF Variant = "waits" THEN el.g ELSE gname
-                         /\ UNCHANGED <<stream, pol, phase, st, ins, orphans, fail, ord>>
-                    ELSE /\ gname' = el.g /\ ch' = "open" /\ i' = i + 1
-                         /\ Forward(el, "open", Append(CloseCur(cons), [g |-> el.g, q |-> <<>>, closed |-> FALSE, done |-> FALSE]))
-                         /\ UNCHANGED <<stream, pol, phase, st, ord>>
-       ELSE /\ i' = i + 1 /\ Forward(el, ch, cons) /\ UNCHANGED <<stream, pol, phase, gname, ch, st, ord>>
+       THEN /\ errs' = errs + 1 /\ i' = i + 1 /\ UNCHANGED <<gname, started, chans, cur, cons, ins, orphans, fail>>
+       ELSE IF Pinned THEN RecvPinned(el) ELSE RecvWaits(el)
+  /\ UNCHANGED <<stream, pol, phase, st, sched>>
 
-\* in the repaired loop the close at a switch is followed by wg.Wait(): model the close as its own step
+\* repaired loop: the close that precedes the wait at a switch
 CloseForSwitch ==
-  /\ Variant = "waits" /\ phase = "run" /\ fail = "" /\ i <= Len(Visible) /\ ch = "open" /\ ~AllDone
+  /\ ~Pinned /\ phase = "run" /\ fail = "" /\ i <= Len(Visible) /\ cur # 0 /\ ~chans[cur].closed
   /\ Visible[i].g # gname /\ Visible[i].g \notin SchemaNames
-  /\ ~cons[Len(cons)].closed
-  /\ cons' = CloseCur(cons)
-  /\ UNCHANGED <<stream, pol, phase, i, gname, ch, st, ins, errs, orphans, fail, ord>>
+  /\ chans' = CloseOf(chans, cur)
+  /\ UNCHANGED <<stream, pol, phase, i, gname, started, cur, cons, st, ins, errs, orphans, fail, sched>>
 
 EOF ==
   /\ phase = "run" /\ fail = "" /\ i > Len(Visible)
-  /\ IF ch = "closed"
-     THEN /\ fail' = "close of closed channel" /\ UNCHANGED <<phase, cons, ch>>
-     ELSE /\ cons' = CloseCur(cons) /\ phase' = "wait" /\ ch' = "closed" /\ UNCHANGED fail
-  /\ UNCHANGED <<stream, pol, i, gname, st, ins, errs, orphans, ord>>
+  /\ IF Closed(cur)
+     THEN /\ fail' = "close of closed channel" /\ UNCHANGED <<phase, chans>>
+     ELSE /\ chans' = CloseOf(chans, cur) /\ phase' = "wait" /\ UNCHANGED fail
+  /\ UNCHANGED <<stream, pol, i, gname, started, cur, cons, st, ins, errs, orphans, sched>>
 
-\* kvgraph.BulkAdd: the whole channel content is written by one bulk write, flushed after the close
+\* pinned: the goroutine starts running and only now reads the channel variable
+StartConsumer(k) ==
+  /\ Pinned /\ cons[k].bound = 0 /\ fail = ""
+  /\ cons' = [cons EXCEPT ![k].bound = cur]
+  /\ sched' = Append(sched, <<"start", k, cur>>)
+  /\ UNCHANGED <<stream, pol, phase, i, gname, started, chans, cur, st, ins, errs, orphans, fail>>
+
+\* kvgraph.BulkAdd: whatever is in the channel is written into the consumer's graph by one bulk write
 Commit(k) ==
-  /\ cons[k].closed /\ ~cons[k].done
-  /\ st' = FoldLeft(LAMBDA s, el : AddOne(s, el), st, cons[k].q)
-  /\ cons' = [cons EXCEPT ![k].done = TRUE] /\ ord' = Append(ord, k)
-  /\ UNCHANGED <<stream, pol, phase, i, gname, ch, ins, errs, orphans, fail>>
+  /\ fail = "" /\ cons[k].bound # 0 /\ ~cons[k].done /\ chans[cons[k].bound].closed
+  /\ st' = FoldLeft(LAMBDA s, el : AddOne(s, [el EXCEPT !.g = cons[k].g]), st, chans[cons[k].bound].q)
+  /\ chans' = [chans EXCEPT ![cons[k].bound].q = <<>>]
+  /\ cons' = [cons EXCEPT ![k].done = TRUE]
+  /\ sched' = Append(sched, <<"commit", k, cons[k].bound>>)
+  /\ UNCHANGED <<stream, pol, phase, i, gname, started, cur, ins, errs, orphans, fail>>
 
 Return == /\ phase = "wait" /\ AllDone /\ phase' = "done"
-          /\ UNCHANGED <<stream, pol, i, gname, ch, cons, st, ins, errs, orphans, fail, ord>>
+          /\ UNCHANGED <<stream, pol, i, gname, started, chans, cur, cons, st, ins, errs, orphans, fail, sched>>
 
-Next == Gen \/ Start \/ Recv \/ CloseForSwitch \/ EOF \/ Return \/ \E k \in DOMAIN cons : Commit(k)
+Next == Gen \/ Start \/ Recv \/ CloseForSwitch \/ EOF \/ Return \/ \E k \in DOMAIN cons : StartConsumer(k) \/ Commit(k)
 Spec == Init /\ [][Next]_vars
 
 ------------------------------------------------------------------------
 Abs == Outcome(InitStore, W, stream)
 Finished == phase = "done" \/ fail # ""
+\* pinned: consumer k was spawned for channel k + 1
+LateStart == \E k \in DOMAIN cons : cons[k].bound # 0 /\ cons[k].bound # (IF Pinned THEN k + 1 ELSE k)
 
 \* what kind of disagreement with the abstract clause a finished run shows
 Disagreement ==
   IF fail # "" THEN fail
   ELSE IF orphans > 0 THEN "element counted as inserted but sent to a channel nobody reads"
+  ELSE IF st # Abs.store /\ LateStart THEN "store differs (a consumer that started late drained another graph's channel)"
   ELSE IF st # Abs.store THEN "store differs (commit order of two consumers of one graph)"
   ELSE IF ins # Abs.ins THEN "insert count differs"
   ELSE IF errs < Abs.errLow THEN "error count too small"
@@ -133,6 +176,5 @@ Refines == Finished => Disagreement = ""
 EmitPrediction ==
   (Finished /\ Disagreement # "") =>
      Emit("pred", [stream |-> stream, pol |-> pol, kind |-> Disagreement,
-                   consumers |-> [k \in DOMAIN cons |-> cons[k].g], order |-> ord])
-EmitRun == Finished => Emit("run", [n |-> Len(stream), ok |-> Disagreement = ""])
+                   consumers |-> [k \in DOMAIN cons |-> cons[k].g], sched |-> sched])
 =======================================================================
